@@ -113,7 +113,8 @@ def kinds():
             doc.body.append(p)
         return doc
 
-    K.append(("frame", k_frame, [("get_frame(name=)", lambda d, n: getattr(d.body.get_frame(name=n), "name", None))]))
+    K.append(("frame", k_frame, [("get_frame(name=)", lambda d, n: getattr(d.body.get_frame(name=n), "name", None)),
+                                 ("get_frame(name=, position=0)", lambda d, n: getattr(d.body.get_frame(position=0, name=n), "name", None))]))
 
     def k_drawpage(all_names):
         doc = Document("presentation")
@@ -148,13 +149,27 @@ def kinds():
 
     def k_note(all_names):
         doc = text_doc()
-        for nm in all_names:
+        for i, nm in enumerate(all_names):
             p = Paragraph("some text")
-            p.insert_note(after="some", note_id=nm, citation="1", body="b")
+            p.insert_note(after="some", note_id=nm, citation="1", body="b", note_class="footnote" if i % 2 == 0 else "endnote")
             doc.body.append(p)
         return doc
 
-    K.append(("note-id", k_note, [("get_note(note_id=)", lambda d, n: getattr(d.body.get_note(note_id=n), "note_id", None))]))
+    def note_with_class(d, n):
+        # both criteria: the note's own class finds it, the other class finds nothing
+        note = d.body.get_note(note_id=n)
+        if note is None:
+            return None
+        own = note.note_class
+        other = "endnote" if own == "footnote" else "footnote"
+        a = d.body.get_note(note_id=n, note_class=own)
+        b = d.body.get_note(note_id=n, note_class=other)
+        if b is not None:
+            return f"found under the other class: {b.note_id}"
+        return getattr(a, "note_id", None)
+
+    K.append(("note-id", k_note, [("get_note(note_id=)", lambda d, n: getattr(d.body.get_note(note_id=n), "note_id", None)),
+                                  ("get_note(note_id=, note_class=)", note_with_class)]))
 
     def k_manifest(all_names):
         doc = text_doc()
